@@ -7,6 +7,7 @@ import (
 	"fmt"
 	"os"
 	"path/filepath"
+	"runtime"
 
 	"github.com/blinklabs-io/gouroboros/ledger/byron"
 	"golang.org/x/crypto/blake2b"
@@ -121,6 +122,22 @@ func runCase(c *vh.Ctx, cf *vh.CaseFile, items [][]byte) {
 		c.Res.Violate("monitor", "merkle-root-panic", fmt.Sprintf("MerkleRoot panicked on %d items: %v", n, pv), rc)
 		return
 	}
+	// the root is a function of the items alone: it must not depend on how many
+	// CPUs the process may use (a data-parallel implementation splits by GOMAXPROCS)
+	if n >= 2 {
+		prev := runtime.GOMAXPROCS(0)
+		for _, procs := range []int{1, 2, 3, 5, 6, 7, 12} {
+			runtime.GOMAXPROCS(procs)
+			var alt []byte
+			pk, pv2 := vh.Recover(func() { h := byron.MerkleRoot(items); alt = h[:] })
+			if pk || !bytes.Equal(alt, got) {
+				runtime.GOMAXPROCS(prev)
+				c.Res.Violate("monitor", "merkle-root-depends-on-gomaxprocs", fmt.Sprintf("MerkleRoot of %d items is %x with GOMAXPROCS=%d and %x with GOMAXPROCS=%d (panic: %v)", n, alt, procs, got, prev, pv2), rc)
+				return
+			}
+		}
+		runtime.GOMAXPROCS(prev)
+	}
 	want := refRoot(items)
 	if !bytes.Equal(got, want) || !bytes.Equal(want, refRoot2(items)) {
 		c.Res.Violate("monitor", "merkle-root-differs", fmt.Sprintf("MerkleRoot of %d items is %x, reference construction gives %x", n, got, want), rc)
@@ -145,7 +162,7 @@ func bucket(n int) int {
 }
 
 func run(c *vh.Ctx) error {
-	c.Res.Rule = "item lists of every length 0..N plus lengths around powers of two; contents random / empty / node-like (leading 0 or 1 + 64 bytes) / item lengths around 32, 64, 128, 256 bytes (hash block and buffer boundaries); distinct by the hex of all items; non-trivial = at least 3 items (at least one branch with an uneven or nested split)"
+	c.Res.Rule = "item lists of every length 0..N plus lengths around powers of two; every list also under GOMAXPROCS 1,2,3,5,6,7,12 (result must not depend on it); contents random / empty / node-like (leading 0 or 1 + 64 bytes) / item lengths around 32, 64, 128, 256 bytes (hash block and buffer boundaries); distinct by the hex of all items; non-trivial = at least 3 items (at least one branch with an uneven or nested split)"
 	c.Res.Modelled = []string{"Blake2b-256 is a Section variable in the theorems; in the correspondence the model returns the preimage term and the harness evaluates it with golang.org/x/crypto/blake2b"}
 	cf := c.NewCaseFile("c35", header)
 	cf.Func = "model_outs"
